@@ -216,7 +216,8 @@ def line(dur, begin=0., end=1., finish=False):
     Second and hertz constants from samples/second rate.
 
   """
-  m = (end - begin) / (dur - (1. if finish else 0.))
+  interval = dur - (1. if finish else 0.)
+  m = (end - begin) / interval if interval != 0 else 0. # No slope: 1 sample
   for sample in xrange(int(dur + .5)):
     yield begin + sample * m
 
@@ -281,9 +282,9 @@ def attack(a, d, s):
   else:
     it_s = None
 
-  # Attack and decay lines
-  m_a = 1. / a
-  m_d = (s - 1.) / d
+  # Attack and decay lines (an empty line needs no slope)
+  m_a = 1. / a if a != 0 else 0.
+  m_d = (s - 1.) / d if d != 0 else 0.
   len_a = int(a + .5)
   len_d = int(d + .5)
   for sample in xrange(len_a):
@@ -374,9 +375,9 @@ def adsr(dur, a, d, s, r):
   0.0, having peak value of 1.0.
 
   """
-  m_a = 1. / a
-  m_d = (s - 1.) / d
-  m_r = - s * 1. / r
+  m_a = 1. / a if a != 0 else 0. # An empty line needs no slope
+  m_d = (s - 1.) / d if d != 0 else 0.
+  m_r = - s * 1. / r if r != 0 else 0.
   len_a = int(a + .5)
   len_d = int(d + .5)
   len_r = int(r + .5)
